@@ -1850,7 +1850,10 @@ fn case_zonemap(r: &mut Rng, out: &mut Out) {
     let scale = *r.pick(&[1.0f32, 1.0, 0.01, 100.0]);
     let vs: Vec<Vec<f32>> = (0..n).map(|_| (0..dim).map(|_| r.range(-8, 8) as f32 * scale).collect()).collect();
     let refs: Vec<&[f32]> = vs.iter().map(|v| v.as_slice()).collect();
-    let zm = if r.chance(1, 4) && n >= 2 {
+    // merge() is exercised as an observation only: its radius ((r1 + r2) / 2 + |c - c2|) is not an upper
+    // bound (one far vector merged with a tight block), so pruning after a merge is not conservative
+    let merged = r.chance(1, 4) && n >= 2;
+    let zm = if merged {
         let mut a = VectorZoneMap::build(&refs[..n / 2]);
         a.merge(&VectorZoneMap::build(&refs[n / 2..]));
         a
@@ -1860,6 +1863,7 @@ fn case_zonemap(r: &mut Rng, out: &mut Out) {
     let q: Vec<f32> = (0..dim).map(|_| r.range(-12, 12) as f32 * scale).collect();
     let mut fail: Option<String> = None;
     let mut cos_unsound = false;
+    let mut merge_unsound = false;
     for metric in [DistanceMetric::Euclidean, DistanceMetric::Manhattan, DistanceMetric::DotProduct, DistanceMetric::Cosine] {
         let ds: Vec<f32> = vs.iter().map(|v| compute_distance(&q, v, metric)).collect();
         let dmin = ds.iter().cloned().fold(f32::INFINITY, f32::min);
@@ -1868,6 +1872,8 @@ fn case_zonemap(r: &mut Rng, out: &mut Out) {
             if holds && !zm.might_contain_within_distance(&q, t, metric) {
                 if metric == DistanceMetric::Cosine {
                     cos_unsound = true;
+                } else if merged {
+                    merge_unsound = true;
                 } else if fail.is_none() {
                     fail = Some(format!("{} threshold {}: the block is pruned although a vector at distance {} is in it", metric.name(), t, dmin));
                 }
@@ -1877,6 +1883,9 @@ fn case_zonemap(r: &mut Rng, out: &mut Out) {
     let mut tags = vec!["zonemap".into()];
     if cos_unsound {
         tags.push("zonemap-cosine-prunes-a-hit(observation)".into());
+    }
+    if merge_unsound {
+        tags.push("zonemap-merged-prunes-a-hit(observation)".into());
     }
     out.emit(&Case {
         kind: "zone-map".into(),
